@@ -207,6 +207,8 @@ class Walker:
                 post = View(seq)
                 self._update_phase_model(op, pre, post)
                 self._resolve_drift(pre_refs)
+                if "C01" in self.props:
+                    self.check_c01(op, pre, post)
                 if "C02" in self.props:
                     self.check_c02(op, pre, post)
                 if "C03" in self.props:
@@ -321,6 +323,88 @@ class Walker:
             # only when non-zero; EOM enable/modify/disable corrections always
             if always or circ(v, 0.0) > 0.0:
                 pm.shift(basis, q, v)
+
+    # ------------------------------------------------------------------ C01
+    def atom_weights(self, cs) -> dict:
+        """Own nearest-trap lookup (|d| <= 1e-6 per coordinate)."""
+        dm = cs.detuning_map
+        traps = np.asarray(dm.trap_coordinates, dtype=float)
+        w = np.asarray(dm.weights, dtype=float)
+        out = {}
+        reg = self.seq._register
+        if not hasattr(reg, "qubits"):
+            return {}
+        for q, pos in reg.qubits.items():
+            p = np.asarray(pos.as_array() if hasattr(pos, "as_array") else pos, dtype=float)
+            tot = 0.0
+            for t, wt in zip(traps, w):
+                if len(t) == len(p) and np.all(np.abs(t - p) <= 1e-6):
+                    tot += float(wt)
+            out[q] = tot
+        return out
+
+    def check_c01(self, op, pre: View, post: View):
+        ctx = self.ctx
+        C = "C01.sound"
+        if post.parametrized:
+            return
+        dev = self.seq.device
+        for name, cv in post.ch.items():
+            new = self._new_slots(pre, post, name)
+            obj = cv.obj
+            for s in new:
+                if not isinstance(s[0], Pulse):
+                    continue
+                p = s[0]
+                amp = np.asarray(p.amplitude.samples.as_array(), dtype=float)
+                det = np.asarray(p.detuning.samples.as_array(), dtype=float)
+                self.stats["c01_pulses"] = self.stats.get("c01_pulses", 0) + 1
+                how = op["op"]
+                if not (np.all(np.isfinite(amp)) and np.all(np.isfinite(det))):
+                    ctx.fail(C, f"non_finite_samples:{type(p.amplitude).__name__}/{type(p.detuning).__name__}",
+                             f"{name}: scheduled pulse has non-finite samples ({how})")
+                if np.any(amp < 0):
+                    ctx.fail(C, "negative_amplitude", f"{name} ({how})")
+                if obj.max_amp is not None and np.any(amp > obj.max_amp):
+                    ctx.fail(C, f"amp>max_amp:{how}",
+                             f"{name}: max amp {amp.max()!r} > {obj.max_amp!r}")
+                avg = float(np.mean(amp))
+                if obj.min_avg_amp and 0 < avg < obj.min_avg_amp * (1 - 1e-12):
+                    ctx.fail(C, f"avg_amp<min:{how}", f"{name}: {avg} < {obj.min_avg_amp}")
+                if cv.is_dmm:
+                    if np.any(det > 5e-7):
+                        ctx.fail(C, f"dmm_positive_detuning:{how}", f"{name}: {det.max()}")
+                    wts = self.atom_weights(self.seq._schedule[name])
+                    if wts:
+                        mw = max(wts.values())
+                        sw = sum(wts.values())
+                        md = float(det.min())
+                        if obj.bottom_detuning is not None and mw * md < obj.bottom_detuning - 5e-7 * max(mw, 1):
+                            ctx.fail(C, f"below_bottom_detuning:{how}",
+                                     f"{name}: {mw}*{md} < {obj.bottom_detuning}")
+                        if (obj.total_bottom_detuning is not None
+                                and sw * md < obj.total_bottom_detuning - 5e-7 * max(sw, 1)):
+                            ctx.fail(C, f"below_total_bottom_detuning:{how}",
+                                     f"{name}: {sw}*{md} < {obj.total_bottom_detuning}")
+                elif obj.max_abs_detuning is not None and np.any(
+                        np.abs(det) > obj.max_abs_detuning + 5e-7):
+                    ctx.fail(C, f"det>max_abs_detuning:{how}",
+                             f"{name}: {np.abs(det).max()!r} > {obj.max_abs_detuning!r}")
+                d = s[2] - s[1]
+                if d <= 0 or d % obj.clock_period:
+                    ctx.fail(C, f"duration_not_clock_multiple:{how}", f"{name}: {d} / {obj.clock_period}")
+                if d < obj.min_duration:
+                    ctx.fail(C, f"duration<min:{how}", f"{name}: {d} < {obj.min_duration}")
+                if obj.max_duration is not None and d > obj.max_duration:
+                    ctx.fail(C, f"duration>max:{how}",
+                             f"{name}: scheduled pulse lasts {d} > max_duration {obj.max_duration}")
+        msd = dev.max_sequence_duration
+        if msd is not None:
+            tot = max([cv.end for cv in post.ch.values()] or [0])
+            if tot > msd:
+                ctx.fail(C, f"sequence>max_sequence_duration:{op['op']}", f"{tot} > {msd}")
+            if tot > msd - 600:
+                self.stats["near_max_seq"] = 1
 
     # ------------------------------------------------------------------ C02
     def check_c02(self, op, pre: View, post: View, failed: bool = False):
